@@ -11,6 +11,8 @@ import core
 RULE = ("exhaustive: every trajectory over {0,1,2,NaN} of length <= L (quick 5, thorough 6) x tau in {1,2,3,7} x both window "
         "modes, then random long trajectories (<= 2000 frames, <= 30 cells, NaN runs, unvisited cells, tau up to 50); "
         "plus sequences of 2-6 requests on ONE MSM object (single lags and get_all_tau arrays with repeated / fractional lags); "
+        "the same through 13 input representations of the trajectory (list, tuple, float32/16, long double, int64/32, uint8, "
+        "strided / read-only views, column vector) and numpy-integer cell count / lag; "
         "plus LARGE cell counts n in {255..2^22} around 2^8, 2^15, 2^16, 2^17, 2^20 (short trajectories visiting cells 0, n-1, "
         "and cells around 2^16 and n/2; compared sparsely: the model's support entries for n <= 2^17, the exact spec for all); "
         "a case is non-trivial when at least one window is counted; distinct by (trajectory, n, tau, mode)")
@@ -77,8 +79,27 @@ def cases(ctx):
             if rep == 0:
                 xs = [n - 1, n - 1, 0, n - 1, n - 2, n - 1][:max(3, L)]   # high-index pairs for certain
             tau = rng.choice([1, 1, 2, 3])
+            reps = [r for r in ("f64", "f64", "list", "int64", "int32", "f32", "longdouble", "strided") if rep_ok(r, xs)]
             yield {"kind": "msm_big", "xs": xs, "n": n, "tau": tau, "noncorr": rng.random() < 0.5,
-                   "model": n <= 131072}
+                   "model": n <= 131072, "xrep": rng.choice(reps), "npint": rng.random() < 0.3}
+    # INPUT REPRESENTATION: the same trajectories as lists, tuples, float32 / float16 / long double / integer arrays,
+    # strided and read-only views, a column vector; cell count and lag as numpy integers
+    fixed = [[0, 1, None, 2, 1, 0, 0, 2, 1, 1, None, 0], [0, 1, 2, 2, 1, 0, 0, 2, 1, 1, 0], [2, 2, 2, 2], [None, 1, None, 1, 1]]
+    for xs in fixed:
+        for rep in X_REPS:
+            if rep_ok(rep, xs):
+                for tau, nc in ((1, False), (2, True), (3, False)):
+                    yield {"kind": "msm", "xs": xs, "n": 3, "tau": tau, "noncorr": nc, "xrep": rep, "npint": rep in ("f32", "int64", "list")}
+    for _ in range(120 if ctx.quick else 2500):
+        n = rng.choice([1, 2, 3, 5, 8, 13, 30])
+        L = rng.randint(0, rng.choice([3, 10, 50, 200]))
+        used = rng.randint(1, n)
+        pn = rng.choice([0.0, 0.0, 0.1, 0.3])
+        xs = [None if rng.random() < pn else rng.randrange(used) if rng.random() < 0.8 else n - 1 for _k in range(L)]
+        reps = [r for r in X_REPS if rep_ok(r, xs)]
+        yield {"kind": "msm", "xs": xs, "n": n, "tau": rng.choice([1, 1, 2, 3, 5, 7]), "noncorr": rng.random() < 0.5,
+               "xrep": rng.choice(reps), "npint": rng.random() < 0.3}
+    ctx.extra_cov["input_representations"] = {"trajectory": list(X_REPS), "cell_count_and_lag": ["int", "numpy.int64"]}
     # window generator directly, with other steps
     for _ in range(60 if ctx.quick else 600):
         L = rng.randint(0, 40)
@@ -86,9 +107,66 @@ def cases(ctx):
         yield {"kind": "windows", "xs": xs, "tau": rng.randint(1, 8), "step": rng.randint(1, 8)}
 
 
+X_REPS = ("f64", "list", "tuple", "f32", "f16", "strided", "readonly", "longdouble", "col2d",
+          "int64", "int32", "uint8", "listint")
+NONAN_REPS = ("int64", "int32", "uint8", "listint")
+
+
+def rep_ok(rep, xs):
+    """can the trajectory be written in this representation without changing a value?"""
+    top = max([v for v in xs if v is not None], default=0)
+    if rep in NONAN_REPS and None in xs:
+        return False
+    if rep == "f32":
+        return top < 2 ** 24
+    if rep == "f16":
+        return top <= 2048
+    if rep == "uint8":
+        return top <= 255
+    if rep == "int32":
+        return top < 2 ** 31
+    return True
+
+
+def traj_in(xs, rep):
+    """the assigned trajectory `xs` (None = NaN) in one of the representations MSM accepts on the unchanged tree"""
+    f = [float("nan") if v is None else float(v) for v in xs]
+    if rep == "f64":
+        return np.array(f, dtype=float)
+    if rep == "list":
+        return [float("nan") if v is None else v for v in xs]          # Python ints and NaN mixed
+    if rep == "tuple":
+        return tuple(f)
+    if rep == "f32":
+        return np.array(f, dtype=np.float32)
+    if rep == "f16":
+        return np.array(f, dtype=np.float16)
+    if rep == "strided":
+        return np.repeat(np.array(f, dtype=float), 2)[::2]
+    if rep == "readonly":
+        a = np.array(f, dtype=float)
+        a.setflags(write=False)
+        return a
+    if rep == "longdouble":
+        return np.array(f, dtype=np.longdouble)
+    if rep == "col2d":
+        return np.array(f, dtype=float).reshape(-1, 1)
+    if rep == "int64":
+        return np.array(xs, dtype=np.int64)
+    if rep == "int32":
+        return np.array(xs, dtype=np.int32)
+    if rep == "uint8":
+        return np.array(xs, dtype=np.uint8)
+    if rep == "listint":
+        return list(xs)
+    raise core.HarnessError(f"unknown trajectory representation {rep}")
+
+
 def impl(case):
     from molgri.molecules.transitions import MSM, window
-    xs = np.array([np.nan if v is None else float(v) for v in case["xs"]], dtype=float)
+    xs = traj_in(case["xs"], case.get("xrep", "f64"))
+    if case.get("npint"):
+        case = dict(case, n=np.int64(case["n"]), tau=np.int64(case["tau"]) if "tau" in case else None)
     try:
         with core.quiet():
             if case["kind"] == "msm":
@@ -204,6 +282,8 @@ def compare(ctx, case, out, mouts):
         ctx.branch("nonzero_matrix")
     else:
         ctx.branch("zero_matrix")
+    if "xrep" in case:
+        ctx.branch(f"rep:trajectory={case['xrep']}" + ("+numpy_int_args" if case.get("npint") else ""))
     if len(case["xs"]) <= case["tau"]:
         ctx.branch("traj_not_longer_than_tau")
     if None in case["xs"]:
